@@ -27,6 +27,13 @@ func (e *TempError) Error() string   { return e.Msg }
 func (e *TempError) Timeout() bool   { return false }
 func (e *TempError) Temporary() bool { return true }
 
+// TimeoutError is what a Read returns when its deadline passes.
+type TimeoutError struct{}
+
+func (TimeoutError) Error() string   { return "memnet: i/o timeout" }
+func (TimeoutError) Timeout() bool   { return true }
+func (TimeoutError) Temporary() bool { return true }
+
 // ErrClosed is returned by reads and writes on a closed Conn.
 var ErrClosed = errors.New("memnet: use of closed connection")
 
@@ -79,6 +86,8 @@ type Conn struct {
 	ChunkSize int
 	raw       []byte
 
+	rdl        time.Time // read deadline
+	rdlTimer   *time.Timer
 	lateWrites int // Write calls after Close
 	// ErrWithData makes the Read that returns the last queued fragment also
 	// return the queued error (n > 0 together with io.EOF / a read error), which
@@ -157,9 +166,21 @@ func (c *Conn) Read(p []byte) (int, error) {
 	defer c.mu.Unlock()
 	c.ReadCalls++
 	for len(c.in) == 0 && c.inErr == nil && !c.closed {
+		if !c.rdl.IsZero() {
+			if !time.Now().Before(c.rdl) {
+				return 0, TimeoutError{}
+			}
+			if c.rdlTimer == nil {
+				c.rdlTimer = time.AfterFunc(time.Until(c.rdl), func() { c.cond.Broadcast() })
+			}
+		}
 		c.readers++
 		c.cond.Wait()
 		c.readers--
+	}
+	if c.rdlTimer != nil {
+		c.rdlTimer.Stop()
+		c.rdlTimer = nil
 	}
 	if c.closed {
 		return 0, ErrClosed
@@ -345,7 +366,18 @@ func (c *Conn) CloseCount() int {
 func (c *Conn) LocalAddr() net.Addr                { return c.Local }
 func (c *Conn) RemoteAddr() net.Addr               { return c.Remote }
 func (c *Conn) SetDeadline(t time.Time) error      { return nil }
-func (c *Conn) SetReadDeadline(t time.Time) error  { return nil }
+// SetReadDeadline is honoured by Read (virtual time inside a synctest bubble).
+func (c *Conn) SetReadDeadline(t time.Time) error {
+	c.mu.Lock()
+	c.rdl = t
+	if c.rdlTimer != nil {
+		c.rdlTimer.Stop()
+		c.rdlTimer = nil
+	}
+	c.mu.Unlock()
+	c.cond.Broadcast()
+	return nil
+}
 func (c *Conn) SetWriteDeadline(t time.Time) error { return nil }
 
 // Listener scripts Accept.
